@@ -28,7 +28,7 @@ def _deref_of(e, ptr):
         if is_var(x, ptr):
             return 'peek'
         if x.get('k') == 'un' and x.get('op') == '++' and is_var(x.get('e'), ptr):
-            return 'consumed' if x.get('postfix') else 'peek'
+            return 'consumed' if x.get('postfix') else 'pre'
     if e.get('k') == 'idx' and is_var(e.get('base'), ptr):
         c = const_of(e.get('index'))
         if c == -1:
@@ -87,7 +87,13 @@ def analyse(fn, accepted):
         if k == 'consumed':
             if st.rel == 'consumed':
                 return st, True
+            if st.rel == 'peek':
+                # `*p++` after `*p` was examined: the byte read is the one already looked at
+                return st.copy(rel='consumed'), True
             return st.copy(C=ALL, H=frozenset(), rel='consumed'), True
+        if k == 'pre':
+            # `*++p`: a new byte
+            return st.copy(C=ALL, H=frozenset(), rel='peek'), True
         return st, False
 
     def judge(st):
